@@ -2,14 +2,15 @@
 
    _save_updated_:   optimistic_session = cache.db_session is None or cache.db_session.optimistic        (criteria are built iff this holds)
                      ...
-                     if cursor.rowcount == 0 and cache.db_session.optimistic: throw(OptimisticCheckError)
+                     if cursor.rowcount == 0 and optimistic_session: throw(OptimisticCheckError)       (repo commit 019826c; before: cache.db_session.optimistic,
+                                                                                                        an AttributeError outside a db_session)
    `ds` = None: no db_session (interactive mode);  Some b: db_session.optimistic = b. *)
 Inductive rc0 := RaiseOptimistic | RaiseAttributeError | NoError.
 
 (* what the code does when the UPDATE reports rowcount 0 *)
 Definition rowcount0_outcome (ds : option bool) : rc0 :=
   match ds with
-  | None => RaiseAttributeError          (* None.optimistic *)
+  | None => RaiseOptimistic              (* optimistic_session is true without a db_session *)
   | Some true => RaiseOptimistic
   | Some false => NoError                (* a non-optimistic session holds the write lock from its first statement: the row cannot have changed *)
   end.
